@@ -16,8 +16,9 @@
 (*   level dim-1 : the unit cells of the fractures (one grid per fracture)   *)
 (*   level dim-2 : the cells contained in >= 2 fractures (intersection      *)
 (*                 points in 2D, intersection lines in 3D)                   *)
-(*   level dim-3 : (3D) the points where intersection lines of >= 2         *)
-(*                 directions meet                                           *)
+(*   level dim-3 : (3D) the points where intersection lines meet (a line =  *)
+(*                 a straight run of level dim-2 cells lying in the same    *)
+(*                 set of fractures)                                         *)
 (* and a lower-dimensional cell s is coupled to exactly those cells p of    *)
 (* the next level of which it is a facet - through one split face of the    *)
 (* grid of p per such p: two (one on each side) where the grid of p passes  *)
@@ -85,9 +86,17 @@ Host(N) == CellsIn(Zero3, N.box, N.dim)
 AllFracCells(N) == UNION {FracCells(N, k) : k \in 1..NF(N)}
 Codim2(N) == {q \in CellsIn(Zero3, N.box, N.dim - 2) :
                 Cardinality({k \in 1..NF(N) : q \in Closed(N, k)}) >= 2}
-LineDirs(L, q) == {i \in 1..3 : Plus(q, i, 1) \in L \/ Plus(q, i, -1) \in L}
+\* (3D) 0-d points: an intersection LINE is a maximal straight run of level dim-2 cells contained in the SAME set
+\* of fractures (so that all its cells have the same neighbouring grids); a lattice point is a 0-d grid where
+\* such lines meet, i.e. unless it is passed by exactly one line (two collinear cells with the same fractures)
+EdgeFracs(N, e) == {k \in 1..NF(N) : e \in Closed(N, k)}
+IncLines(L, q) == {d \in (1..3) \X {-1, 1} : Plus(q, d[1], d[2]) \in L}
+PassedByOneLine(N, L, q) ==
+  \E i \in 1..3 : /\ IncLines(L, q) = {<<i, 1>>, <<i, -1>>}
+                  /\ EdgeFracs(N, Plus(q, i, 1)) = EdgeFracs(N, Plus(q, i, -1))
 Codim3(N) == IF N.dim < 3 THEN {}
-             ELSE LET L == Codim2(N) IN {q \in CellsIn(Zero3, N.box, 0) : Cardinality(LineDirs(L, q)) >= 2}
+             ELSE LET L == Codim2(N) IN
+                  {q \in CellsIn(Zero3, N.box, 0) : Cardinality(IncLines(L, q)) >= 2 /\ ~PassedByOneLine(N, L, q)}
 Level(N, j) == IF j = N.dim THEN Host(N)
                ELSE IF j = N.dim - 1 THEN AllFracCells(N)
                ELSE IF j = N.dim - 2 THEN Codim2(N)
